@@ -367,6 +367,27 @@ class SymBool:
 
     __int__ = __index__
 
+    # bool is an int in Python: arithmetic goes through the 0/1 integer value
+    def _as_int(self):
+        return SymInt(_bv(self))
+
+    def __lshift__(self, o): return self._as_int() << o
+    def __rlshift__(self, o): return o << self._as_int()
+    def __rshift__(self, o): return self._as_int() >> o
+    def __rrshift__(self, o): return o >> self._as_int()
+    def __add__(self, o): return self._as_int() + o
+    __radd__ = __add__
+    def __sub__(self, o): return self._as_int() - o
+    def __rsub__(self, o): return o - self._as_int()
+    def __mul__(self, o): return self._as_int() * o
+    __rmul__ = __mul__
+    def __neg__(self): return -self._as_int()
+    def __invert__(self): return ~self._as_int()
+    def __lt__(self, o): return self._as_int() < o
+    def __le__(self, o): return self._as_int() <= o
+    def __gt__(self, o): return self._as_int() > o
+    def __ge__(self, o): return self._as_int() >= o
+
     def __repr__(self):
         return f'SymBool({self.e})'
 
